@@ -15,6 +15,25 @@ CLAIMED = {
           'cell, sampled over cells.',
           'Trusts the key table (own hash implementation) only for coverage, measured with the real position function; '
           'mmh3_ch not runnable; <=8 destinations, RF<=4.', 'DESIGN.md 3/C05'),
+  'C06': ('exploration', 'before/after and differential oracle over all 65536 ring positions executed on the real ring',
+          'Executes membership histories (all toggle histories <=3 over 3-node lists, DYNAMIC_ROUTER down/up patterns, random '
+          'histories <=6 over <=8 nodes incl. colliding ones) on the real router; after each operation sweeps get_nodes() over '
+          'one key per ring position and checks minimal disruption, equality with a reference ring written from the published '
+          'algorithm, and equality with a freshly built router. Known finding C06-a (collision bumps are history dependent) is '
+          'recognised by mechanism.',
+          'Reference ring in vlib/refs/ring.py is trusted as the published algorithm; mmh3_ch not runnable.', 'DESIGN.md 3/C06'),
+  'C14': ('exploration', 'realpath containment oracle on executed path functions and real file creation in a scratch tree',
+          'All strings <= L over an 8-symbol hostile alphabet (L=4/5), classic traversal names and random long names are passed '
+          'to the real WhisperDatabase/CeresDatabase.getFilesystemPath (both TAG_HASH_FILENAMES values); a subset is really '
+          'created via database.create() and the scratch tree is walked for anything outside the data dir; determinism and '
+          'injectivity over well-formed names are checked.',
+          'whisper/ceres libraries are absent: stand-ins record file-system effects; the Ceres node->file step is reproduced '
+          'from upstream.', 'DESIGN.md 3/C14'),
+  'C18': ('exploration', 'metamorphic oracle (permutations x two syntaxes x re-normalisation) on executed TaggedSeries.parse and processors',
+          'Generates (name, tag set) over the reserved-character alphabet, spells every permutation in both syntaxes, '
+          'normalises with the real parser and requires agreement, idempotence, exact tag content, and raw fallback through '
+          'the real CacheFeedingProcessor/RelayProcessor. Exhaustive for small sizes, random beyond.',
+          'Accepted spellings are compared; the parser may reject more than the documented tag rules.', 'DESIGN.md 3/C18'),
 }
 
 NOT_YET = 'check not built yet (work in progress; see DESIGN.md)'
